@@ -331,6 +331,21 @@ class SolveLoop:
         return out
 
 
+def returned_expr(fn: ast.FunctionDef):
+    """The expression a function returns: its single `return <expr>`, looked through one local
+    binding (`r = <expr>; return r`).  None if there is not exactly one value-returning return."""
+    rets = [n for n in ast.walk(fn) if isinstance(n, ast.Return) and n.value is not None]
+    if len(rets) != 1:
+        return None
+    v = rets[0].value
+    if isinstance(v, ast.Name):
+        defs = [s for s in ast.walk(fn) if isinstance(s, ast.Assign) and len(s.targets) == 1
+                and isinstance(s.targets[0], ast.Name) and s.targets[0].id == v.id]
+        if len(defs) == 1:
+            return defs[0].value
+    return v
+
+
 def fmt_path(path) -> str:
     parts = []
     for node, label in path:
